@@ -1,30 +1,46 @@
-"""C16, feature-configuration half: the drop inspection of the known-answer probe (every byte of the former representation of
+"""C16, feature-configuration and optimisation-profile half: the drop inspection of the known-answer probe (every byte of the former representation of
 generated / deserialised / derived / cloned key objects) is run in the feature configurations, not only in the harness
 configuration of the engines. quick: the four (default-rng x dudect) configurations with all three parameter sets plus the
-dudect bench configuration [ml-dsa-44,dudect]; thorough: all 28. Build trees are shared with C17."""
+dudect bench configuration [ml-dsa-44,dudect]; thorough: all 28. Build trees are shared with C17.
+The probe also drops Box<key> objects the ordinary way and reads the freed block back (token zeroize_heap): a wipe made of
+ordinary stores is removed as dead stores in front of the deallocation, depending on how the CALLER's crate is optimised, so
+the all-sets configuration is additionally built in several optimisation profiles of the dependent crate
+(quick: opt-level 2 and 3 x debug-assertions off/on; thorough: opt-level 0,1,2,3,s x debug-assertions x lto)."""
 import json, os, subprocess, hashlib
 from concurrent.futures import ThreadPoolExecutor
 from verif_common import MC, TARGET, ROOT, env, known_findings, gc_deps
 import verif_c17
 
 
-def one(idx, feats):
-    tdir = os.path.join(TARGET, "cfg", "c%02d" % idx)
-    e = env({"CARGO_TARGET_DIR": tdir, "CARGO_INCREMENTAL": "0"})
-    r = subprocess.run(["cargo", "build", "--offline", "-j4", "--features", ",".join(feats)], cwd=os.path.join(MC, "cfgprobe"), env=e,
-                       stdout=subprocess.PIPE, stderr=subprocess.STDOUT, text=True, timeout=1200)
-    res = {"features": feats, "build": r.returncode == 0, "log": r.stdout[-800:] if r.returncode else "", "zeroize": {}}
+def one(idx, feats, variant=None):
+    """variant = None: the probe's dev profile; else (opt_level, debug_assertions, lto): release profile with these overrides"""
+    if variant is None:
+        tdir = os.path.join(TARGET, "cfg", "c%02d" % idx)
+        extra, sub, args = {}, "debug", []
+    else:
+        opt, da, lto = variant
+        tdir = os.path.join(TARGET, "cfg", "opt_%s_%s_%s" % (opt, "da" if da else "nda", "lto" if lto else "nolto"))
+        b = "true" if da else "false"
+        extra = {"CARGO_PROFILE_RELEASE_OPT_LEVEL": str(opt), "CARGO_PROFILE_RELEASE_DEBUG_ASSERTIONS": b, "CARGO_PROFILE_RELEASE_OVERFLOW_CHECKS": b,
+                 "CARGO_PROFILE_RELEASE_LTO": "fat" if lto else "false"}
+        sub, args = "release", ["--release"]
+    e = env(dict({"CARGO_TARGET_DIR": tdir, "CARGO_INCREMENTAL": "0"}, **extra))
+    r = subprocess.run(["cargo", "build", "--offline", "-j4", "--features", ",".join(feats)] + args, cwd=os.path.join(MC, "cfgprobe"), env=e,
+                       stdout=subprocess.PIPE, stderr=subprocess.STDOUT, text=True, timeout=1800)
+    res = {"features": feats, "variant": variant, "build": r.returncode == 0, "log": r.stdout[-800:] if r.returncode else "", "zeroize": {}, "tokens": {}}
     if r.returncode == 0:
         try:
-            p = subprocess.run([os.path.join(tdir, "debug", "cfgprobe")], stdout=subprocess.PIPE, stderr=subprocess.STDOUT, text=True, timeout=240)
+            p = subprocess.run([os.path.join(tdir, sub, "cfgprobe")], stdout=subprocess.PIPE, stderr=subprocess.STDOUT, text=True, timeout=240)
             res["exit"] = p.returncode
             for line in p.stdout.splitlines():
                 if line.startswith("KAT "):
                     parts = line.split()
-                    res["zeroize"][parts[1]] = dict(x.split("=", 1) for x in parts[2:]).get("zeroize")
+                    toks = dict(x.split("=", 1) for x in parts[2:])
+                    res["tokens"][parts[1]] = toks
+                    res["zeroize"][parts[1]] = toks.get("zeroize") if toks.get("zeroize_heap", "ok") == "ok" or toks.get("zeroize") != "ok" else "heap-" + toks["zeroize_heap"]
         except subprocess.TimeoutExpired:
             res["exit"] = "timeout"
-    gc_deps(os.path.join(tdir, "debug"), keep=3)
+    gc_deps(os.path.join(tdir, sub), keep=3)
     return res
 
 
@@ -36,22 +52,29 @@ def main(tier, evidence):
     cfgs = list(enumerate(verif_c17.configs()))
     if tier == "quick":
         cfgs = [(i, f) for i, f in cfgs if all(s in f for s in verif_c17.SETS) or f == ["ml-dsa-44", "dudect"]]
+    allsets = list(verif_c17.SETS)
+    if tier == "quick":
+        variants = [(2, False, False), (3, True, False)]
+    else:
+        variants = [(o, da, lto) for o in (0, 1, 2, 3, "s") for da in (False, True) for lto in (False, True)]
+    jobs = [(i, f, None) for i, f in cfgs] + [(99, allsets, v) for v in variants]
     with ThreadPoolExecutor(max_workers=8) as ex:
-        results = list(ex.map(lambda x: one(*x), cfgs))
+        results = list(ex.map(lambda x: one(*x), jobs))
     viol, machinery, objs = [], [], 0
     for r in results:
-        name = ",".join(r["features"])
+        name = ",".join(r["features"]) + ("" if r.get("variant") is None else " built with opt-level=%s debug-assertions=%s lto=%s" % tuple(r["variant"]))
         if not r["build"] or r.get("exit") != 0:
             # a configuration that does not build or whose probe crashes is C17's verdict, not C16's
             machinery.append("configuration [%s]: probe did not build/run (%s) - drop inspection not done there" % (name, r.get("exit", "build failed")))
             continue
         for s, z in r["zeroize"].items():
-            objs += 7
+            objs += 14
             if z != "ok":
-                viol.append(("c16:cfg:%s" % name, "configuration [%s]: ML-DSA-%s key objects keep non-zero bytes after drop" % (name, s), r["features"]))
+                where = "in the freed heap block after an ordinary drop(Box<key>) (%s bytes)" % z.split(":")[-1] if str(z).startswith("heap-") else "after drop"
+                viol.append(("c16:cfg:%s" % name, "configuration [%s]: ML-DSA-%s key objects keep non-zero bytes %s" % (name, s, where), r["features"]))
     cov = ev["coverage"]
     cov["feature_configurations"] = {"configurations": len(results), "inspected": sum(1 for r in results if r["zeroize"]), "objects_dropped": objs,
-                                     "list": [",".join(r["features"]) for r in results], "not_inspected": machinery}
+                                     "list": [",".join(r["features"]) + ("" if r.get("variant") is None else " @opt=%s,da=%s,lto=%s" % tuple(r["variant"])) for r in results], "not_inspected": machinery}
     cov["evaluations"] += objs
     cov["distinct_nontrivial"] += objs
     ev["violations"] = (ev.get("violations") or 0) + len(viol)
